@@ -872,6 +872,18 @@ def _min2(eng, node, *a, **kw):
 
 @reg("builtins.max")
 def _max2(eng, node, *a, **kw):
+    if len(a) == 1 and isinstance(a[0], DictValues) and not kw:
+        d = a[0].d
+        if len(d.v.sorts()) != 1:
+            raise Unsupported("max of structured values")
+        k = _dict_key_const(eng, d, "k")
+        eng.may_raise("ValueError", z3.Not(z3.Exists([k], d.dom[k])), node, "max of an empty sequence")
+        m = eng.fresh("max_value", d.v)
+        w = eng.fresh("max_witness", d.k)
+        from .types import key_term as _kt
+        wk = _kt(d.k, w)
+        eng.assume(z3.And(d.dom[wk], d.comps[0][wk] == m, z3.ForAll([k], z3.Implies(d.dom[k], d.comps[0][k] <= m))))
+        return m
     if len(a) == 1 and isinstance(a[0], SDict) and not kw and a[0].dom.sort().domain() == z3.IntSort():
         # max over the (integer) keys of a dict / the nodes of a graph: a key that no key exceeds
         d = a[0]
